@@ -33,6 +33,7 @@ WITNESSES = {
 }
 
 FIXED_SCRIPTS = [
+    "u:dd1=k0,p1,r|u:R", "u:dd1=k0,dd2=k0,p1|u:r|u:R,p2", "u:dd1=k0,dd2=k0,p1|u:r|u:dd3=k0,R|u:r", "u:dd1=k0,p1|u:R,cd2|u:dd3=k0,p2|u:r",
     "u:dd1=k0,p1|u:r", "u:dd1=k0,p1|u:cd2|u:r", "u:dd1=k0,dm2=k0,p1|u:r|u:r", "u:dd1=k0,dd2=k0,p1|u:r|u:cm3|u:r",
     "n:dd1=r,s5,dd1=r,s6,dd1=k9|u:", "u:cd1|n:dd2=k0,s3,p7|u:r,o8", "u:cd1|u:dd2=k0,s3,p7|u:r,o8", "u:cd1|n:dd2=k0,s3,t|u:o8",
     "u:cd1|u:dd2=k0,s3,t|u:o8", "u:dd1=k0,dd2=k0,p1|u:r|u:r,p2", "u:dd1=k0,dd2=k0,p1|u:r|u:dd3=k0,p2|u:r",
@@ -998,6 +999,7 @@ PROG_WITNESS = {
     # regression programs of the repaired defects (no signature: a divergence is a violation)
     "replaced": ('defer func() { show("replaced outer", recover()) }()\n\tdefer func() { panic("second") }()\n\tpanic("first")', None),
     "builtin": ('defer func() { show("outer", recover()) }()\n\tdefer recover()\n\tpanic("x")', None),
+    "builtin-in-deferred": ('defer func() { defer recover() }()\n\tpanic("x")', None),
     "ptrwrap": ('defer func() { show("outer", recover()) }()\n\tp := new(T)\n\tdefer p.M()\n\tpanic("x")', None),
     "promoted": ('defer func() { show("outer", recover()) }()\n\tvar i interface{ M() } = struct{ T }{T(1)}\n\tdefer i.M()\n\tpanic("x")', None),
     "goexit-panic": ('c := make(chan int)\n\tgo func() {\n\t\tdefer close(c)\n\t\tdefer func() { show("g outer", recover()) }()\n\t\tfunc() {\n'
